@@ -202,12 +202,21 @@ def load_known():
 
 
 def match_known(known, finding: Finding):
+    """A finding is known only if it is the recorded situation: same property, name pattern, and - for
+    findings on generated inputs - the recorded feature tag and failure kind."""
+    tags = set((finding.detail or {}).get("tags", []) or [])
     for k in known.get("known", []):
         if k["property"] != finding.prop:
             continue
-        if k.get("obligation") and k["obligation"] == finding.name:
-            return k
+        if k.get("obligation"):
+            if k["obligation"] == finding.name:
+                return k
+            continue
         if k.get("match") and k["match"] in finding.name:
+            if k.get("tag") and k["tag"] not in tags:
+                continue
+            if k.get("kinds") and not any(finding.name.endswith(":" + kd) for kd in k["kinds"]):
+                continue
             return k
     return None
 
@@ -286,4 +295,32 @@ def run_bounded(eng, pid, key, budget, seed, stubs=None):
                        "inputs_described": fl.get("inputs"), "observed": fl.get("observed"),
                        "note": "failing input found by the bounded stand-in on the real function"}, f, indent=1, default=str)
         out["failures"].append({"name": fl["name"], "what": fl["what"], "replay": path, "inputs": fl.get("inputs")})
+    return out
+
+
+def run_harness(pid, script, args, name, bound, rule, timeout=1500):
+    """Run a property-specific bounded stand-in (under /venv/bin/python on the real code) and write replay files."""
+    try:
+        p = run_runtime(script, args, timeout=timeout)
+        res = json.loads(p.stdout.strip().splitlines()[-1]) if p.stdout.strip() else {"faults": [p.stderr[-800:]]}
+    except Exception as e:  # noqa
+        res = {"faults": [repr(e)]}
+    out = {"name": name, "kind": "bounded stand-in", "bound": bound, "rule": rule, "evaluations": res.get("evaluations", 0),
+           "distinct_nontrivial": res.get("distinct_nontrivial", 0), "samples": res.get("samples", [])[:3], "failures": []}
+    if res.get("faults"):
+        out["fault"] = str(res["faults"][0])[-600:]
+    os.makedirs(os.path.join(VERIF, "replays", pid), exist_ok=True)
+    seen = {}
+    for fl in res.get("failures", []):
+        key = (fl["name"], tuple(fl.get("tags", [])))
+        seen[key] = seen.get(key, 0) + 1
+        if seen[key] > 2:
+            continue
+        safe = "".join(ch if ch.isalnum() or ch in "._-" else "_" for ch in fl["name"])[:70] + f"_{len(out['failures'])}"
+        path = os.path.join("replays", pid, f"{safe}.json")
+        with open(os.path.join(VERIF, path), "w") as f:
+            json.dump({"property": pid, "kind": "harness", "script": script, "obligation": fl["name"], "what": fl["what"],
+                       "language": fl.get("language"), "text": fl.get("text"), "tags": fl.get("tags", []), "extra": fl.get("extra"),
+                       "case": fl.get("case")}, f, indent=1, default=str)
+        out["failures"].append({"name": fl["name"], "what": fl["what"], "replay": path, "tags": fl.get("tags", [])})
     return out
